@@ -202,7 +202,9 @@ type World struct {
 	Sched   *Schedule
 	Replay  bool
 	nextOp  int
+	weights map[string]int
 	gasMax  map[string]uint64
+	gasMin  map[string]uint64
 	denoms  map[string]*big.Int // genesis funding per actor
 	fp      [32]byte
 	curOp   int
